@@ -533,6 +533,15 @@ def seeds_over_all_references(ck, rule):
                          "up to count seeds survive per reference, and a seed outside the global top count can produce the record",
                          found=T.show(arg)[:240],
                          required=f"chain.from_iterable(__getPrimaryCorrelations(r, query) for r in {params[0]})")
+        elif arg is not None and arg[0] == "comp" and len(arg[3]) == 2 and arg[3][1][0][0] == "app" and arg[3][1][0][1] == pc_q \
+                and arg[3][0][0][0] == "call" and arg[3][0][0][1].split(".")[-1] in ("takewhile", "islice", "dropwhile") \
+                and T.contains(arg[3][0][0], refs):
+            cut = arg[3][0][0][1].split(".")[-1]
+            ck.violation(rule, short(fn) + ":selection-input", w,
+                         f"the references are consumed through {cut}(...): a prefix / suffix of the reference list, not a selection - "
+                         "the references behind the first one that fails the test are never correlated (a reference shorter than the "
+                         "molecule in front of the one that holds the true alignment: the record is a low-confidence hit elsewhere, or missing)",
+                         found=T.show(arg[3][0][0])[:200], required=f"every reference of {params[0]} (a filter may skip, it may not stop)")
         else:
             raise AnalysisError(f"{w}: what selectPeaks is applied to is not recognised: {T.show(arg)[:200] if arg else None}")
 
